@@ -176,6 +176,39 @@ def eval_condition(cond, records: Dict[str, tuple], record_dims: Dict[str, tuple
     raise Unsupported(f"condition type {type(cond).__name__}")
 
 
+class Scope:
+    """One repetition of one (possibly nested) sub-circuit: how its qubits, the keys it records under and the
+    keys its classical controls read translate to the top-level circuit -- from the documented meaning of
+    qubit_map, measurement_key_map (applies to the *name* of a key, at every enclosing level), repetition ids
+    and parent path (prepended to the key's path, outermost first)."""
+
+    def __init__(self, parent: Optional["Scope"], qmap: dict, kmap: dict, prefix: tuple):
+        self.parent, self.qmap, self.kmap, self.prefix = parent, qmap, kmap, tuple(prefix)
+        self.measured = set()       # names, as written in this sub-circuit, measured so far in this repetition
+
+    def qubit(self, q):
+        q = self.qmap.get(q, q)
+        return self.parent.qubit(q) if self.parent is not None else q
+
+    def record_key(self, k) -> str:
+        name, path, s = _key_str(k), (), self
+        while s is not None:
+            name = s.kmap.get(name, name)
+            path = s.prefix + path
+            s = s.parent
+        return ":".join(path + (name,))
+
+    def control_key(self, k: str) -> str:
+        """The innermost enclosing measurement of that name, else the top-level key."""
+        name, s = k, self
+        while s is not None:
+            if name in s.measured:
+                return s.record_key(name)
+            name = s.kmap.get(name, name)
+            s = s.parent
+        return name
+
+
 # -- the interpreter ------------------------------------------------------------------------------------------
 
 class QRef:
@@ -236,45 +269,39 @@ class QRef:
             raise Unsupported("too many reference branches")
         return out
 
-    def _step_branch(self, b: Branch, op: cirq.Operation, qmap=None, key_of=None) -> List[Branch]:
-        """`qmap` / `key_of` are set while unrolling a CircuitOperation: the sub-circuit's qubits and
-        measurement keys are translated here, from the documented meaning of qubit_map,
-        measurement_key_map, repetition ids and parent path -- never through the operation's own
-        with_qubits / with_key machinery, which is code under test."""
+    def _step_branch(self, b: Branch, op: cirq.Operation, scope: Optional[Scope] = None) -> List[Branch]:
+        """`scope` is set while unrolling a CircuitOperation: the sub-circuit's qubits and keys are translated
+        by it -- never through the operation's own with_qubits / with_key machinery, which is code under test."""
         sp = self.space
+        name_of = scope.control_key if scope is not None else None
         if isinstance(op, cirq.TaggedOperation) and isinstance(op.untagged, cirq.ClassicallyControlledOperation):
             op = op.untagged      # tags (e.g. a noise model's PHYSICAL_GATE_TAG) carry no semantics
         if hasattr(cirq, "If") and isinstance(op.untagged, cirq.If):
-            if key_of is not None:
-                raise Unsupported("If inside a sub-circuit")
             op = op.untagged
-            if not all(eval_condition(c, b.records, self.record_dims) for c in op.conditions):
+            if not all(eval_condition(c, b.records, self.record_dims, name_of) for c in op.conditions):
                 return [b]
-            return self._step_branch(b, op.sub_operation)
-        # classical control: all conditions must hold
+            return self._step_branch(b, op.sub_operation, scope)
+        # classical control: all conditions must hold.  Inside a sub-circuit a control key means the innermost
+        # enclosing sub-circuit's own measurement of that key so far (in this repetition, under the mapped and
+        # scoped name), else the top-level key (measurement_key_map still applies to the name)
         if isinstance(op, cirq.ClassicallyControlledOperation):
             conds = op.classical_controls
-            # inside a sub-circuit a control key means the sub-circuit's own measurement of that key (in this
-            # repetition, under the mapped and scoped name) if there is one so far, else the enclosing
-            # scope's key (measurement_key_map still applies to the name)
-            name_of = None if key_of is None else (
-                lambda k: key_of(k) if k in key_of.measured else key_of.outer(k))
             ok = all(eval_condition(c, b.records, self.record_dims, name_of) for c in conds)
             if not ok:
                 return [b]
-            return self._step_branch(b, op.without_classical_controls(), qmap, key_of)
+            return self._step_branch(b, op.without_classical_controls(), scope)
         untagged = op.untagged
         if isinstance(untagged, cirq.CircuitOperation):
-            if key_of is not None:
-                raise Unsupported("nested sub-circuits")
-            return self._circuit_operation(b, untagged)
+            return self._circuit_operation(b, untagged, scope)
         gate = untagged.gate
-        targets = [sp.index[(qmap or {}).get(q, q)] for q in op.qubits]
+        targets = [sp.index[scope.qubit(q) if scope is not None else q] for q in op.qubits]
         if isinstance(gate, cirq.MeasurementGate):
-            return self._measurement_gate(b, gate, targets, key_override=(key_of(gate.key) if key_of else None))
+            return self._measurement_gate(b, gate, targets,
+                                          key_override=(scope.record_key(gate.key) if scope else None))
         if isinstance(gate, cirq.PauliMeasurementGate):
-            return self._pauli_measurement(b, gate, targets, key_override=(key_of(gate.key) if key_of else None))
-        if key_of is not None and cirq.is_measurement(untagged):
+            return self._pauli_measurement(b, gate, targets,
+                                           key_override=(scope.record_key(gate.key) if scope else None))
+        if scope is not None and cirq.is_measurement(untagged):
             raise Unsupported("keyed channel inside a sub-circuit")
         if getattr(gate, "_verif_composite_", False):
             # a gate defined only by its decomposition (e.g. "gate followed by its error channel"):
@@ -283,7 +310,7 @@ class QRef:
             for sub in cirq.decompose_once(untagged):
                 nxt: List[Branch] = []
                 for br in branches:
-                    nxt.extend(self._step_branch(br, sub, qmap=qmap, key_of=key_of))
+                    nxt.extend(self._step_branch(br, sub, scope))
                 branches = nxt
             return branches
         if cirq.has_unitary(untagged):
@@ -341,10 +368,11 @@ class QRef:
             return [self._apply_kraus(b, ks)]
         raise Unsupported(f"operation {op!r}")
 
-    def _circuit_operation(self, b: Branch, co: "cirq.CircuitOperation") -> List[Branch]:
+    def _circuit_operation(self, b: Branch, co: "cirq.CircuitOperation", outer: Optional[Scope] = None) -> List[Branch]:
         """A sub-circuit means: its operations, `repetitions` times in a row, on the qubits given by
         qubit_map, recording under measurement_key_map[key] (default: the key itself), prefixed -- when
-        repetition ids are in use -- by the id of the repetition, and by the parent path."""
+        repetition ids are in use -- by the id of the repetition, and by the parent path; nested
+        sub-circuits compose (class Scope)."""
         if co.repeat_until is not None or not isinstance(co.repetitions, (int, np.integer)):
             raise Unsupported("repeat_until / symbolic repetitions")
         reps = int(co.repetitions)
@@ -358,22 +386,16 @@ class QRef:
         parent = tuple(co.parent_path)
         branches = [b]
         for i in range(reps):
-            prefix = parent + ((ids[i],) if ids is not None else ())
-
-            def key_of(k, prefix=prefix):
-                return ":".join(prefix + (kmap.get(k, k),))
-
-            key_of.measured = set()                 # local keys measured so far in this repetition
-            key_of.outer = lambda k: ":".join(parent + (kmap.get(k, k),))
+            scope = Scope(outer, qmap, kmap, parent + ((ids[i],) if ids is not None else ()))
             for moment in co.circuit:
                 for sop in moment.operations:
                     nxt: List[Branch] = []
                     for br in branches:
-                        nxt.extend(self._step_branch(br, sop, qmap=qmap, key_of=key_of))
+                        nxt.extend(self._step_branch(br, sop, scope))
                     branches = nxt
                 for sop in moment.operations:
-                    if cirq.is_measurement(sop):
-                        key_of.measured.update(_key_str(k) for k in cirq.measurement_key_objs(sop))
+                    if cirq.is_measurement(sop) and not isinstance(sop.untagged, cirq.CircuitOperation):
+                        scope.measured.update(_key_str(k) for k in cirq.measurement_key_objs(sop))
         return branches
 
     def _measurement_gate(self, b: Branch, gate: cirq.MeasurementGate, targets: List[int],
